@@ -594,6 +594,14 @@ func c09(c *Ctx) {
 				}
 			}
 			r.Check(okDefer, "R6.inflight-cleanup", name, p.Pos(cs.Pos()), "keys marked in-flight are removed by a deferred call registered before they are marked", "keys marked as being received can stay marked after the goroutine exits (later offers of them are declined forever)")
+			// every path to the wait for the connection marks the keys first (whatever the version of the offering peer)
+			core.Calls(fn, func(c3 ssa.CallInstruction) {
+				if !strings.HasSuffix(core.CalleeID(c3), utpAcceptWithCid) {
+					return
+				}
+				w := core.MustPassBefore(c3, func(in ssa.Instruction) bool { return in == cs.(ssa.Instruction) })
+				r.Check(w == nil, "R6.inflight-cleanup", name+" marked-before-waiting", p.Pos(c3.Pos()), "the keys are marked in flight on every path before the goroutine waits for the transfer", "a transfer can be awaited without its keys having been marked as being received (a concurrent offer of the same key is accepted a second time): "+p.PathString(w))
+			})
 		}
 	}
 }
